@@ -130,6 +130,9 @@ func c07Event(t *rapid.T, label string, authors []string, n int) *mocrelay.Event
 	if rapid.Bool().Draw(t, label+"tag") {
 		e.Tags = append(e.Tags, mocrelay.Tag{"t", rapid.SampledFrom([]string{"x", "y"}).Draw(t, label+"tv")})
 	}
+	if rapid.IntRange(0, 3).Draw(t, label+"ptag") == 0 {
+		e.Tags = append(e.Tags, rapid.SampledFrom(gen.ProtocolTags).Draw(t, label+"ptagv"))
+	}
 	gen.Seal(e)
 	return e
 }
@@ -1126,6 +1129,124 @@ func TestC07Churn(t *testing.T) {
 		}
 		col.Label("mode:churn")
 		col.Add("churn_iterations", int64(iters))
+		col.Case(true, hx.JSON(desc), func() any { return desc })
+	})
+}
+
+// TestC07BacklogSiblingClose: a subscriber with several subscriptions is behind
+// (its deliveries wait in the connection's buffer, which is large enough to hold
+// all of them) and gives up subscriptions one by one while a publisher keeps
+// publishing. The subscription it keeps must still receive every event, once and
+// in publication order: nothing was beyond the configured buffer.
+func TestC07BacklogSiblingClose(t *testing.T) {
+	col := ev.For("C07").SetRule(c07Rule)
+	rapid.Check(t, func(t *rapid.T) {
+		ndrop := rapid.IntRange(1, 4).Draw(t, "dropped_subscriptions")
+		n1 := rapid.IntRange(5, 60).Draw(t, "events_before")
+		n2 := rapid.IntRange(20, 200).Draw(t, "events_during")
+		b := (n1+n2)*(ndrop+1) + 16 // every delivery fits: nothing may be dropped
+		router := mocrelay.NewRouterHandler(b)
+		authors := gen.Pubkeys(2)
+		// the last one may be replaced by a REQ that matches nothing instead of being closed (only
+		// one: a connection that does not read cannot expect further input to be taken once a
+		// reply is waiting for it)
+		replace := rapid.Bool().Draw(t, "replace_last_instead_of_close")
+		desc := map[string]any{"mode": "backlog-sibling-close", "buflen": b, "dropped_subscriptions": ndrop, "events_before": n1, "events_during": n2, "replace_last": replace}
+		failf := func(sig, clause, obs, exp string) {
+			hx.Fail(t, ev.Failure{Property: "C07", Signature: sig, Clause: clause, Case: desc, Observed: obs, Expected: exp})
+		}
+		s := newRConn(0, router)
+		defer s.end(false)
+		p := newRConn(1, router)
+		defer p.end(false)
+		ids := []string{"keep"}
+		for i := 0; i < ndrop; i++ {
+			ids = append(ids, fmt.Sprintf("drop%d", i))
+		}
+		for _, id := range ids {
+			if err := s.put(&mocrelay.ClientReqMsg{SubscriptionID: id, ReqFilters: []*mocrelay.ReqFilter{{Kinds: []int64{1}}}}, stepTimeout); err != nil {
+				failf("stalled", "REQ is taken", err.Error(), "")
+			}
+			if m, ok := s.next(stepTimeout); !ok {
+				failf("no-eose", "every REQ is answered by EOSE", "no EOSE", "")
+			} else if _, is := m.(*mocrelay.ServerEOSEMsg); !is {
+				failf("no-eose", "every REQ is answered by EOSE", hx.JSON(briefServer(m)), "EOSE")
+			}
+		}
+		s.stall.Store(true)
+		time.Sleep(2500 * time.Microsecond)
+		var want []string
+		publish := func(k int) string {
+			e := &mocrelay.Event{Pubkey: authors[0], Kind: 1, CreatedAt: int64(1000 + k), Tags: []mocrelay.Tag{}, Content: fmt.Sprint("backlog", k)}
+			gen.Seal(e)
+			if err := p.put(&mocrelay.ClientEventMsg{Event: e}, 10*time.Second); err != nil {
+				return "EVENT not taken: " + err.Error()
+			}
+			if m, ok := p.next(10 * time.Second); !ok {
+				return "no OK"
+			} else if o, is := m.(*mocrelay.ServerOKMsg); !is || !o.Accepted {
+				return "not an accepting OK: " + hx.JSON(briefServer(m))
+			}
+			want = append(want, e.ID)
+			return ""
+		}
+		for k := 0; k < n1; k++ {
+			if why := publish(k); why != "" {
+				failf("publisher-delayed", "a subscriber that stops reading never delays publishers", why, "")
+			}
+		}
+		// the publisher goes on while the subscriber gives subscriptions up
+		perr := make(chan string, 1)
+		progress := make(chan int, n2)
+		go func() {
+			for k := n1; k < n1+n2; k++ {
+				if why := publish(k); why != "" {
+					perr <- why
+					return
+				}
+				progress <- k
+			}
+			perr <- ""
+		}()
+		for i := 0; i < ndrop; i++ {
+			// after a few more publications
+			for j, w := 0, rapid.IntRange(1, 6).Draw(t, fmt.Sprintf("gap%d", i)); j < w; j++ {
+				select {
+				case <-progress:
+				case <-time.After(10 * time.Second):
+				}
+			}
+			var m mocrelay.ClientMsg = &mocrelay.ClientCloseMsg{SubscriptionID: ids[i+1]}
+			if replace && i == ndrop-1 {
+				m = &mocrelay.ClientReqMsg{SubscriptionID: ids[i+1], ReqFilters: []*mocrelay.ReqFilter{{Kinds: []int64{7}}}}
+			}
+			if err := s.put(m, 10*time.Second); err != nil {
+				failf("stalled", "the router takes a CLOSE / REQ from a connection that is behind", err.Error(), "")
+			}
+		}
+		if why := <-perr; why != "" {
+			failf("publisher-delayed", "a subscriber that stops reading never delays publishers", why, "")
+		}
+		s.stall.Store(false)
+		var keep []string
+		for len(keep) < len(want) {
+			m, ok := s.next(3 * time.Second)
+			if !ok {
+				break
+			}
+			if em, is := m.(*mocrelay.ServerEventMsg); is && em.SubscriptionID == "keep" {
+				keep = append(keep, em.Event.ID)
+			}
+		}
+		if hx.JSON(keep) != hx.JSON(want) {
+			first := 0
+			for first < len(keep) && first < len(want) && keep[first] == want[first] {
+				first++
+			}
+			failf("backlog-order", "events of one publisher reach a given subscription in publication order, each exactly once; only deliveries beyond the configured buffer are dropped (here none)",
+				fmt.Sprintf("%d of %d received; first difference at position %d", len(keep), len(want), first), "all, in publication order")
+		}
+		col.Label("mode:backlog-sibling-close")
 		col.Case(true, hx.JSON(desc), func() any { return desc })
 	})
 }
